@@ -274,6 +274,9 @@ class CallMixin:
             return self.list_copy(args[0])
         if name == 'enumerate':
             return VView('enumerate', args[0])
+        if name == 'globals' and not args:
+            # only membership tests are read: `x in globals()` = "x is bound at module level here"
+            return VView('globals', self.frame.fi.module if self.frame is not None and self.frame.fi is not None else '?')
         if name == 'str':
             return VStr(self.fresh('str'), None)
         if name in ('hasattr', 'getattr', 'dict', 'tuple', 'sum', 'sorted', 'open', 'set', 'frozenset', 'id',
